@@ -66,7 +66,11 @@ def shards(tier, seed):
     out = []
     for o in sorted(OUTERS):
         for r in RENAMES + (["inner"] if any(fs[0] == "hyb" for _, fs in OUTERS[o]) else []):
-            out += [(o, r, i) for i in range(len(World(o, r).events()))]
+            try:
+                nev = len(World(o, r).events())
+            except Exception:
+                nev = 1  # (the initial world cannot be built: the shard itself reports it)
+            out += [(o, r, i) for i in range(nev)]
     return out[seed % len(out):] + out[: seed % len(out)]
 
 
@@ -98,8 +102,9 @@ def get_classes(oname, rename):
             return xo.Ref(inner[spec[1]])
 
     for nm, fields in INNERS.items():
-        # variant "inner": the first field of every NESTED class has another python name
-        iren = {fields[0][0]: "py_" + fields[0][0]} if rename == "inner" else {}
+        # variant "inner": EVERY field of every nested class has another python name (also the fields that link to a further
+        # nested class: dictionaries with python names are translated level by level)
+        iren = {fn_: "py_" + fn_ for fn_, _ in fields} if rename == "inner" else {}
         inner[nm] = type(nm, (xo.HybridClass,), {"_xofields": {n: ftype(s) for n, s in fields}, "_rename": iren})
     fields = OUTERS[oname]
     ren = {}
@@ -199,7 +204,7 @@ class World:
 
     def ipy(self, cname, fn):
         """python name of field fn of the nested class cname"""
-        return "py_" + fn if (self.rename == "inner" and INNERS[cname][0][0] == fn) else fn
+        return "py_" + fn if self.rename == "inner" else fn
 
     def pykw(self, cname, m):
         """a model dictionary of class cname (xo names) as keyword arguments / nested dictionaries with python names"""
@@ -703,6 +708,13 @@ def run_shard(shard, tier, seed):
             fe = dict(feats, event=ev[0] if ev else "initial", after_refusal=bool(refused), depth=len(hist) + (1 if ev else 0), event_detail=str(ev[3]) if ev and len(ev) > 3 else (str(ev[1]) if ev and len(ev) > 1 else None))
             res.violations.append(common.violation(o, f, fe, dict(cls=oname, rename=rename, hist_idx=hidx, ev_idx=ei, history=[list(map(str, e)) for e in hist], event=list(map(str, ev)) if ev else None), d))
 
+    try:
+        build(oname, rename, [])
+    except Exception as e:
+        # the objects of the initial world are built from plain data / dictionaries with python names: legal constructions
+        res.violations.append(common.violation("C18.accepts", "construction-raises:" + common.exc_failure(e), dict(feats, event="initial", depth=0),
+                                               dict(cls=oname, rename=rename, hist_idx=[], ev_idx=None, history=[], event=None), repr(e)))
+        return res
     seen = set()
     if first == 0:
         w0 = build(oname, rename, [])
